@@ -137,7 +137,7 @@ func checkC17() fw.Check {
 		MinNontrivial: 30,
 		Assumptions:   []string{"reference predicate: RFC 1918 blocks and fc00::/7 on the unmapped address", "Linux build"},
 		Gen: func(tier string, seed int64) []fw.Case {
-			nDocs, nRuns := 100, 2
+			nDocs, nRuns := 100, 6
 			if tier == "thorough" {
 				nDocs, nRuns = 5000, 30
 			}
@@ -263,7 +263,7 @@ func runC17Wire(c *fw.Ctx, id string, v refmatch.Variant, rdns, viaHTTP bool, n 
 		if viaHTTP {
 			srv := server.NewServer()
 			q := url.Values{"target": {target.String()}, "protocol": {proto}, "port": {"33434"}, "max-ttl": {fmt.Sprint(nhops + 1)}, "timeout": {"400"},
-				"traceroute-queries": {"2"}, "e2e-queries": {"1"}, "reverse-dns": {fmt.Sprint(rdns)}, "skip-private-hops": {fmt.Sprint(skip)}, "ipv6": {fmt.Sprint(v.V6)}}
+				"traceroute-queries": {"2"}, "e2e-queries": {"1"}, "reverse-dns": {boolSpelling(rdns, n)}, "skip-private-hops": {boolSpelling(skip, n+1)}, "ipv6": {boolSpelling(v.V6, n+2)}}
 			req := httptest.NewRequest("GET", "/traceroute?"+q.Encode(), nil)
 			rec := httptest.NewRecorder()
 			srv.TracerouteHandler(rec, req)
@@ -330,6 +330,14 @@ func runC17Wire(c *fw.Ctx, id string, v refmatch.Variant, rdns, viaHTTP bool, n 
 		}
 	}
 	c.Sample(map[string]any{"case": id, "plain": fmtHops(&plain.Traceroute.Runs[0]), "redacted": fmtHops(&red.Traceroute.Runs[0])})
+}
+
+// boolSpelling: the spellings of a boolean query parameter that strconv.ParseBool (the documented parser) accepts
+func boolSpelling(b bool, k int) string {
+	if b {
+		return []string{"true", "1", "t", "T", "TRUE", "True"}[k%6]
+	}
+	return []string{"false", "0", "f", "F", "FALSE", "False"}[k%6]
 }
 
 func sortRuns(d *result.Results) {
